@@ -266,6 +266,27 @@ def check(run: Run) -> None:
         run.report("C19/helper", {"ops": [{"op": h[0], "args": list(h[1:3]), "observed": h[3], "expected": h[4]}]})
 
     ds_n, ds_fail = dumpstruct_oracle(run, rng, thorough)
+    # dumpstruct in its other forms: a colourless dump has no escape codes; dumpstruct(Type, data) shows exactly the structure's bytes also when data is
+    # longer; an instance built from values can be dumped like a parsed one
+    from dissect.cstruct import cstruct as _cs, dumpstruct as _ds
+    cs_d = _cs()
+    cs_d.load("struct big { uint32 a; uint32 b; uint64 c; uint8 d[16]; }; struct small { uint16 a; uint8 b; };")
+    probes = []
+    out = _ds(cs_d.big(bytes(range(32))), color=False, output="string")
+    probes.append(("C19/colourless-dump-has-escape-codes", "dumpstruct(big(bytes(range(32))), color=False, output='string')", "\x1b" in out, "no escape codes", repr(out[:120])))
+    out = _ds(cs_d.small, b"\x01\x02\x03TRAILING", color=False, output="string")
+    probes.append(("C19/dumpstruct-shows-bytes-beyond-the-structure", "dumpstruct(small, b'\\x01\\x02\\x03TRAILING', color=False)", "TRAIL" in out or "54 52 41" in out, "a hex dump of 01 02 03 only", repr(out[:200])))
+    try:
+        out = _ds(cs_d.small(a=1, b=2), output="string")
+        bad, shown = ("a" not in out), repr(out[:120])
+    except Exception as e:  # noqa: BLE001
+        bad, shown = True, f"{type(e).__name__}: {e}"
+    probes.append(("C19/dumpstruct-of-an-instance-built-from-values", "dumpstruct(small(a=1, b=2), output='string')", bad, "a dump listing a and b", shown))
+    for sig, op, bad, want, shown in probes:
+        ds_n += 1
+        if bad:
+            ds_fail += 1
+            run.report(sig, {"definition": "struct big { uint32 a; uint32 b; uint64 c; uint8 d[16]; }; struct small { uint16 a; uint8 b; };", "ops": [{"op": op, "observed": shown, "expected": want}]})
 
     # unexplained disagreements between model and implementation
     un = []
